@@ -272,7 +272,8 @@ package network_delegation
 //@   ensures err == nil ==> ndRewTotal(drs) == old(ndRewTotal(drs)) + big(amount)                              // C02.delta
 //@   ensures ndRew(drs, delegator) == old(ndRew(drs, delegator)) || ndRew(drs, delegator) == old(ndRew(drs, delegator)) + big(amount)   // C02.delta
 //@   ensures ndRewTotal(drs) == old(ndRewTotal(drs)) || ndRewTotal(drs) == old(ndRewTotal(drs)) + big(amount)  // C02.delta
-//@   claims err == nil ==> ndRew(drs, delegator) == old(ndRew(drs, delegator)) + big(amount)                   // C02.delta-error-dropped
+// (failed until 2f28698: the first write's error was overwritten by the second)
+//@   ensures err == nil ==> ndRew(drs, delegator) == old(ndRew(drs, delegator)) + big(amount)                  // C02.delta-error-dropped
 
 // debit of the reward balance: never below zero ("never exceed the accrued reward balance")
 //@ func (*DelegRewardStore).MinusRewardsBalance
